@@ -55,10 +55,41 @@ def trace_of(row):
     return lines
 
 
-def validate_traces(ctx, rows, tag="trace", timeout=1800):
+FANOUT = ("closest", "closestn", "closestntable", "toprank", "topranktable")
+
+
+def fanout_trace_of(row):
+    """Trace of a fan-out command (Fanout.tla: Q per-query goroutines report to Main, which then writes 1 + Q times)."""
+    v, b = row["vec"], row["obs"]
+    f = {"kind": "none", "at": 0}
+    if v.get("failk", 0) > 0:
+        f = {"kind": "wr", "at": v["failk"]}
+    lines = [{"ev": "begin", "fault": f, "id": row["id"]}]
+    lines += [{"ev": e["ev"], "idx": e["idx"]} for e in b["events"]]
+    lines.append({"ev": "ret", "err": b["iserr"], "nw": b["nwrites"]})
+    return lines
+
+
+def validate_fanout_traces(ctx, rows, tag="ftrace", timeout=1800):
+    """Fan-out runs with 3 queries and 3 targets; grouped by the number of Write calls per query row (WPR is a constant
+    of Fanout.tla): 1 + 3 * WPR calls in all."""
+    rejected = []
+    groups = {}
+    for r in rows:
+        w = r["obs"].get("nwrites_ref", 0) - 1
+        if r["vec"]["N"] == 3 and w % 3 == 0 and w // 3 in (1, 3, 5):
+            groups.setdefault(w // 3, []).append(r)
+    for wpr, rs in sorted(groups.items()):
+        rejected += validate_traces(ctx, rs, tag="%s_w%d" % (tag, wpr), timeout=timeout, module="TraceFanout", cfg="TraceFanout_w%d.cfg" % wpr,
+                                    builder=fanout_trace_of)
+    ctx.extra["fanout_traces"] = ctx.extra.get("fanout_traces", 0) + sum(len(x) for x in groups.values())
+    return rejected
+
+
+def validate_traces(ctx, rows, tag="trace", timeout=1800, module="TracePipeline", cfg="TracePipeline.cfg", builder=None):
     """Returns the list of rejected rows [(row, line_in_trace)].  All traces go through one TLC run; when the
     high-water mark stops short, the trace containing that line is rejected, removed, and the rest re-run."""
-    traces = [(r, trace_of(r)) for r in rows]
+    traces = [(r, (builder or trace_of)(r)) for r in rows]
     rejected = []
     total_states = 0
     rounds = 0
@@ -70,7 +101,7 @@ def validate_traces(ctx, rows, tag="trace", timeout=1800):
             starts.append(len(flat) + 1)
             flat += t
         write_ndjson(path, flat)
-        res = ctx.tlc("TracePipeline", "TracePipeline.cfg", workers=1, env={"VERIF_OBS": path}, deque=True,
+        res = ctx.tlc(module, cfg, workers=1, env={"VERIF_OBS": path}, deque=True,
                       expect_violation=True, tag="%s_%d" % (tag, rounds), count=False, timeout=timeout)
         m = re.findall(r'<<"HWM", (\d+), (\d+)>>', res["out"])
         bad_inv = [x for x in res["violations"] if x not in ("<postcondition>",)]
